@@ -439,10 +439,24 @@ class Engine:
                         diffs.append((a, b_, -1))
                     elif st.le(terms[a], terms[b_]):
                         diffs.append((a, b_, 0))
-        fields = {k: v for k, v in fields.items() if v != (-INF, INF)}
+        # bounds on the sum of two captures (`-size <= index` is kept as index + size >= 0)
+        sums = []
+        for i_, a in enumerate(ks):
+            for b_ in ks[i_ + 1:]:
+                ta, tb = terms[a], terms[b_]
+                if ta is not None and tb is not None and ta[0] == "s" and tb[0] == "s" and ta[1] != tb[1]:
+                    lo, hi = st.sum_bound(ta[1], tb[1])
+                    if (lo, hi) != (-INF, INF):
+                        off = ta[2] + tb[2]
+                        sums.append((a, b_, lo + off if lo != -INF else -INF, hi + off if hi != INF else INF))
+                        fields.setdefault(a, st.itv_term(ta))
+                        fields.setdefault(b_, st.itv_term(tb))
+        fields = {k: v for k, v in fields.items() if v != (-INF, INF) or any(k in (x[0], x[1]) for x in sums)}
         if not fields and not counters:
             return None
         e = {"fields": fields, "field_diffs": diffs}
+        if sums:
+            e["field_sums"] = sums
         if counters:
             e["counters"] = counters
         return e
